@@ -74,6 +74,7 @@ package home
 
 //@ func (c *configuration) write(tlsMgr *tlsManager) (err error)
 //@   property C14
+//@   trusted-ensures keeps-accounts: globalContext.firstRun == old(globalContext.firstRun) && globalContext.auth == old(globalContext.auth) && globalContext.auth.users == old(globalContext.auth.users) && config == old(config) && (forall k int :: 0 <= k && k < len(globalContext.auth.users) ==> globalContext.auth.users[k].Name == old(globalContext.auth.users[k].Name))
 //@   requires !held(c.RWMutex) && !rheld(c.RWMutex)
 //@   modifies *
 //@   callsite github.com/google/renameio/v2/maybe.WriteFile(filename, data, perm) requires filename == configFilePath()
@@ -97,6 +98,19 @@ package home
 //@   callsite os.WriteFile(name, data, perm) requires name == fn0
 
 //@ sweep C14 os.WriteFile, os.Create, os.OpenFile, os.Truncate, github.com/google/renameio/v2/maybe.WriteFile, github.com/google/renameio/v2.WriteFile
+
+// Renames and removals: the configuration file is never moved away or deleted - between a rename-away and the next write
+// there would be no configuration at its path, and a crash there makes the next start a first-run installation.  Every
+// rename / removal in the package is one of the known sites below (system files of the service integration, the PID file).
+//@ package-callsite os.Rename(oldpath, newpath) requires known-rename-site: oldpath == resolvConfPath
+//@ package-callsite os.Remove(name) requires known-remove-site: name == resolvedConfPath || name == globalContext.pidFileName || name == launchdStdoutPath || name == launchdStderrPath
+//@ sweep C14 os.Rename, os.Remove, os.RemoveAll
+//@ func cleanupAlways()
+//@   property C14
+//@   modifies *
+//@ func handleServiceUninstallCommand(s service.Service)
+//@   property C14
+//@   modifies *
 
 // ---- C11: every admin endpoint behind authentication ----
 // Provenance of handler values (ghost sets): guardedH / guardedF contain exactly the handlers returned by the
@@ -169,6 +183,7 @@ package home
 //@   callsite (*net/http.ServeMux).Handle(mux, pattern, h) requires pattern == "/control/login"
 //@ func registerControlHandlers(web *webAPI)
 //@   property C11
+//@   trusted-ensures keeps-accounts: globalContext.firstRun == old(globalContext.firstRun) && globalContext.auth == old(globalContext.auth) && globalContext.auth.users == old(globalContext.auth.users) && config == old(config) && (forall k int :: 0 <= k && k < len(globalContext.auth.users) ==> globalContext.auth.users[k].Name == old(globalContext.auth.users[k].Name))
 //@   modifies *
 //@   callsite (*net/http.ServeMux).HandleFunc(mux, pattern, h) requires guardedF[h] || pattern == "/apple/doh.mobileconfig" || pattern == "/apple/dot.mobileconfig"
 //@ func (web *webAPI) registerInstallHandlers()
@@ -239,6 +254,44 @@ package home
 //@   pure-function
 //@   modifies nothing
 //@   ensures ok == (path.Match("/assets/*", p) || path.Match("/login.*", p))
+
+// Installation.  While no configuration exists the installation endpoints are served without credentials (preInstall);
+// the configure call creates the first account and ends that mode.  If it fails half-way it reopens the installation
+// endpoints - and then it must not leave the account it has just created behind: otherwise an account exists while
+// configuration-changing endpoints answer without credentials.  (Module start, the configuration writer and the route
+// registration do not touch the account list or the first-run flag: assumed frame facts, see trusted-ensures.)
+//@ func (a *Auth) addUser(u *webUser, password string) (err error)
+//@   property C11
+//@   requires !held(a.lock)
+//@   ensures added-last: err == nil ==> len(a.users) == old(len(a.users)) + 1 && a.users[len(a.users) - 1].Name == u.Name
+//@   ensures failed-unchanged: err != nil ==> a.users == old(a.users)
+//@   ensures u.Name == old(u.Name) && !held(a.lock)
+//@   modifies a.users, elems(a.users), u.PasswordHash
+//@ func (a *Auth) removeUser(login string)
+//@   property C11
+//@   requires !held(a.lock)
+//@   ensures last-added-removed: old(len(a.users)) > 0 && old(a.users[len(a.users) - 1].Name) == login ==> len(a.users) == old(len(a.users)) - 1
+//@   ensures never-grows: len(a.users) <= old(len(a.users)) && !held(a.lock)
+//@   modifies a.users, elems(a.users)
+//@   loop 1 invariant -1 <= i && i < len(a.users) && a.users == old(a.users) && held(a.lock)
+//@   loop 1 invariant old(len(a.users)) > 0 && old(a.users[len(a.users) - 1].Name) == login ==> i == len(a.users) - 1
+//@ func copyInstallSettings(dst *configuration, src *configuration)
+//@   property C11
+//@   modifies *dst
+//@ func startMods(ctx context.Context, baseLogger *slog.Logger, tlsMgr *tlsManager) (err error)
+//@   trusted
+//@   ensures keeps-accounts: globalContext.firstRun == old(globalContext.firstRun) && globalContext.auth == old(globalContext.auth) && globalContext.auth.users == old(globalContext.auth.users) && config == old(config) && (forall k int :: 0 <= k && k < len(globalContext.auth.users) ==> globalContext.auth.users[k].Name == old(globalContext.auth.users[k].Name))
+//@   modifies *
+//@ func decodeApplyConfigReq(r io.Reader) (req *applyConfigReq, restartHTTP bool, err error)
+//@   trusted
+//@   ensures err == nil ==> req != nil && fresh(req)
+//@   modifies nothing
+//@ func (web *webAPI) handleInstallConfigure(w http.ResponseWriter, r *http.Request)
+//@   property C11
+//@   requires globalContext.auth != nil && !held(globalContext.auth.lock)
+//@   requires !held(config.RWMutex) && !rheld(config.RWMutex)
+//@   ensures no-account-left-while-installation-is-open: globalContext.firstRun ==> len(globalContext.auth.users) <= old(len(globalContext.auth.users))
+//@   modifies *
 
 // ---- C12 (continued): sessions ----
 
